@@ -5,6 +5,7 @@ package proxy
 import (
 	"context"
 	"net"
+	"strconv"
 	"sync/atomic"
 
 	"github.com/fatedier/frp/client/event"
@@ -361,4 +362,64 @@ func verif_Manager_Close(pm *Manager) {
 	pm.Close()
 	verif.Ensures(len(pm.proxies) == 0, "no_wrapper_left")
 	verif.Ensures(!verif.Held(&pm.mu), "lock_released")
+}
+
+// ---------------------------------------------------------------- C01: the client side of a TCP-class tunnel
+
+const (
+	evJoin  = "golib/io.Join"
+	evEnc   = "golib/io.WithEncryption"
+	evComp  = "golib/io.WithCompressionFromPool"
+	evDial  = "golib/net.Dial"
+	evPPOut = "Header).WriteTo"
+)
+
+// HandleTCPWorkConnection mirrors the server's stack: encryption, keyed by the
+// key the caller passes (the client token), directly on the work connection
+// (or on the byte-preserving limiter around it) iff configured; compression
+// directly above iff configured; the top of that stack is joined with a
+// connection dialled to the configured local address and nothing else. A
+// proxy-protocol header, when configured and the message carries the user's
+// address, is written to the local connection before any tunnel byte.
+//
+//verif:contract (*~/client/proxy.BaseProxy).HandleTCPWorkConnection
+//verif:props C01
+func verif_HandleTCPWorkConnection(pxy *BaseProxy, workConn net.Conn, m *msg.StartWorkConn, encKey []byte) {
+	verif.Requires(pxy.baseCfg != nil && m != nil, "constructed_and_message_present")
+	enc, comp := pxy.baseCfg.Transport.UseEncryption, pxy.baseCfg.Transport.UseCompression
+	wantPP := pxy.baseCfg.Transport.ProxyProtocolVersion != "" && m.SrcAddr != "" && m.SrcPort != 0
+	local := net.JoinHostPort(pxy.baseCfg.LocalIP, strconv.Itoa(pxy.baseCfg.LocalPort))
+	limited, plugged := pxy.limiter != nil, pxy.proxyPlugin != nil
+	verif.ResetEvents()
+	pxy.HandleTCPWorkConnection(workConn, m, encKey)
+	if verif.Called(evJoin) {
+		verif.Ensures(!plugged, "joined_only_without_plugin")
+		verif.Ensures(verif.Called(evEnc) == enc && verif.Called(evComp) == comp, "layers_iff_configured")
+		var below any = workConn
+		if enc {
+			if !limited {
+				verif.Ensures(verif.Same(verif.NthArg[any](evEnc, 0, 0), below), "encryption_directly_on_the_work_connection")
+			}
+			verif.Ensures(verif.CalledWith(evEnc, 1, encKey), "encryption_keyed_by_the_callers_key")
+			below = verif.Ret[any](evEnc, 0)
+		}
+		if comp {
+			if enc || !limited {
+				verif.Ensures(verif.Same(verif.NthArg[any](evComp, 0, 0), below), "compression_directly_above")
+			}
+			below = verif.Ret[any](evComp, 0)
+		}
+		if enc || comp || !limited {
+			verif.Ensures(verif.Same(verif.NthArg[any](evJoin, 0, 1), below), "top_of_the_stack_is_joined")
+		}
+		verif.Ensures(verif.CalledWith(evDial, 0, local) && verif.RetErr(evDial, 1) == nil, "backend_is_the_configured_local_address")
+		verif.Ensures(verif.Same(verif.NthArg[any](evJoin, 0, 0), any(verif.Ret[net.Conn](evDial, 0))), "joined_with_the_backend_connection")
+		verif.Ensures(verif.Called(evPPOut) == wantPP, "proxy_protocol_header_iff_configured_and_address_known")
+		if wantPP {
+			verif.Ensures(verif.CalledBefore(evPPOut, evJoin) && verif.RetErr(evPPOut, 1) == nil, "header_written_before_any_tunnel_byte")
+		}
+		verif.Ensures(verif.CallCount(evJoin) == 1, "joined_once")
+	} else if !plugged {
+		verif.Ensures(verif.CalledWith("Conn).Close", 0, workConn), "work_connection_closed_when_not_joined")
+	}
 }
